@@ -100,10 +100,31 @@ inline std::vector<Script> read_scripts(std::istream& in) {
 }
 
 // run(script) executes in the child and prints lines to stdout.
+// the scripts are read one at a time: the parent stays small, so that forking a child (page tables) and the child's leak check
+// (a scan of the whole heap) cost the same for the 100th and the 100000th script
+inline bool next_script(std::istream& in, std::string& pending_header, Script& s) {
+    s.id.clear(); s.lines.clear();
+    std::string l;
+    bool have = false;
+    if (!pending_header.empty()) { s.id = pending_header.substr(4); pending_header.clear(); have = true; }
+    while (std::getline(in, l)) {
+        if (l.empty() || l[0] == '#') continue;
+        if (l.compare(0, 4, "=== ") == 0) {
+            if (have) { pending_header = l; return true; }
+            s.id = l.substr(4); have = true;
+        } else if (have) {
+            s.lines.push_back(l);
+        }
+    }
+    return have;
+}
+
 inline int run_all(const std::function<void(const Script&)>& run) {
-    std::vector<Script> scripts = read_scripts(std::cin);
     const bool nofork = getenv("VERIF_NOFORK") != 0;
-    for (size_t i = 0; i < scripts.size(); ++i) {
+    std::string pending;
+    std::vector<Script> scripts(1);
+    const size_t i = 0;
+    while (next_script(std::cin, pending, scripts[0])) {
         printf("=== %s\n", scripts[i].id.c_str());
         fflush(stdout);
         if (nofork) { run(scripts[i]); fflush(stdout); continue; }
